@@ -1,7 +1,83 @@
 import EntraitModel.Wire
+import EntraitModel.Props
+/-
+  Driver side of the property predicates: evaluate every `P_Cxx` on the model's expansion and
+  on the real expansion, and compare the property's projection of the two.
+-/
 namespace Entrait.Obs
 open Entrait Entrait.Wire
 
-def evalAll (_v : Variant) (_attr : Toks) (_item : Item) (_m : Outcome) (_r : Real) : String := ""
+def metaGet (m : String) (key : String) : Option String :=
+  let parts := m.splitOn ";"
+  match parts.find? (fun kv => kv.startsWith (key ++ "=")) with
+  | some kv => some (kv.drop (key.length + 1)).toString
+  | none => none
+
+def metaList (m : String) (key : String) : Option (List String) :=
+  (metaGet m key).map (fun s => if s.isEmpty then [] else s.splitOn ",")
+
+def realView (r : ROut) : View :=
+  { origOk := r.prefixOk, parsed := r.parsed, inherent := r.inherent, inside := r.inside, after := r.after }
+
+structure PropRow where
+  id : String
+  k : Option Bool          -- projections agree (`none`: real expansion not observable)
+  pm : Bool                -- predicate on the model's expansion
+  pr : Option Bool         -- predicate on the real expansion
+
+def b3 (b : Bool) : String := if b then "1" else "0"
+def o3 : Option Bool → String
+  | some b => b3 b
+  | none => "-"
+
+def PropRow.show (r : PropRow) : String := s!"{r.id}={o3 r.k}{b3 r.pm}{o3 r.pr}"
+
+/-- projection used for the correspondence of a property: the parts of the view it reads -/
+def projEq (mv rv : View) : Bool :=
+  decide (mv.inside = rv.inside ∧ mv.after = rv.after ∧ mv.inherent = rv.inherent)
+
+def findings (attr : Toks) (item : Item) (view : View) : List String :=
+  (if F_C06_send attr item view then ["C06.send"] else []) ++
+  (if F_C09_attrs item view then ["C09.attrs"] else []) ++
+  (if F_C09_unsafe item then ["C09.unsafe"] else []) ++
+  (if F_C09_default item view then ["C09.default"] else []) ++
+  (if F_C09_assoc item view then ["C09.assoc"] else []) ++
+  (if !traitParamsNodup view then ["C03.dupgeneric"] else []) ++
+  (if item.mode != .fn && item.mode != .trait && item.sourceFns.any (fun f => f.attrs.any isCfg) then ["C18.cfgfn"] else [])
+
+def evalAll (v : Variant) (attr : Toks) (item : Item) (input : Toks) (m : Outcome) (r : Real) (info : String) : String :=
+  match m, r with
+  | .ok out, .ok _ rout =>
+      let mv := out.view
+      let rv := realView rout
+      -- the real expansion can be brought into the model's shape only if it parses and the
+      -- original region is where it is claimed to be
+      let observable := rv.parsed && (rv.origOk || item.mode == .trait || item.mode == .impl)
+      let stable := synStable item input
+      let k : Option Bool := if observable then some (projEq mv rv) else none
+      let row (id : String) (f : View → Bool) : PropRow :=
+        { id := id, k := k, pm := f mv, pr := if observable then some (f rv) else none }
+      let rows : List PropRow :=
+        [ row "C01" (P_C01 v attr item),
+          { id := "C02", k := some (rv.origOk == mv.origOk || !stable),
+            pm := P_C02 item mv, pr := some (!stable || P_C02 item rv) },
+          row "C03" (P_C03 v attr item),
+          row "C04" (P_C04 v attr item),
+          row "C05" (P_C05 v attr item),
+          row "C06" (P_C06 attr item),
+          row "C07" (P_C07 v attr item),
+          row "C08" (P_C08 attr item (metaList info "fns")),
+          row "C09" (P_C09 v attr item),
+          row "C10" (P_C10 v attr item),
+          row "C11" (P_C11 v attr item),
+          row "C12" (P_C12 v attr item),
+          row "C13" (P_C13 attr item),
+          row "C14" (P_C14 attr item),
+          row "C16" (P_C16 v attr item),
+          row "C18" (P_C18 item),
+          row "C19" (P_C19 attr item) ]
+      let fs := findings attr item (if observable then rv else mv)
+      " ".intercalate (rows.map PropRow.show) ++ s!" stable={b3 stable} F={",".intercalate fs}"
+  | _, _ => ""
 
 end Entrait.Obs
